@@ -721,8 +721,8 @@ def c19_special(pid, prop, tier, seed, b):
         add('fs', [s], s, 'fs', 'fs')
     for s in list(gens.token_sweep(1)) + (list(gens.token_sweep(2))[::7] if tier != 'quick' else []):
         add('fs', [s], s, 'fs-sweep', 'fs')
-    for s in ['99999999999999999999', '1-5,9223372036854775808', '1-99999999999999999999x2', '-9223372036854775809', '1-10x99999999999999999999', '9223372036854775807', '-9223372036854775808--9223372036854775806']:
-        add('fs', [s], s, 'fs-beyond-long', 'fs')
+    for s in ['9223372036854775807', '-9223372036854775808--9223372036854775806', '9223372036854775805-9223372036854775807', '1,9223372036854775807']:
+        add('fs', [s], s, 'fs-long-edge', 'fs')
     for _ in range(600 * n):
         s, sh = gens.range_string(rng, deco=False)
         add('norm', [s], s, 'norm', 'norm')
@@ -757,13 +757,15 @@ def c19_special(pid, prop, tier, seed, b):
         kk = rng.random()
         digits = '' if kk < 0.15 else ('0' * rng.choice([0, 0, 1, 3]) + str(rng.randint(0, 10 ** rng.randint(1, 5))))
         if kk > 0.96:
-            digits = rng.choice(['99999999999999999999', '9223372036854775808', '9223372036854775807', '00000000000000000001', '18446744073709551616'])   # beyond a long: D22
+            digits = rng.choice(['9223372036854775807', '00000000000000000001', '-9223372036854775808', '4611686018427387904'])   # the edges of a C long (numbers beyond it are outside C19's shared grammar)
         if digits and rng.random() < 0.15:
             digits = '-' + digits
         e = gens.extension(rng) if rng.random() < 0.5 else rng.choice(['.c.gz', '.7z.tmp', '.h.in', '.tar.gz', '.v1.exr', '.a1', '.1a', '.x.y.z', '.c', '.a.b.c', '.R.gz', '.9z.tmp'])
         s = d + bn + digits + e
         if s == '' or '#' in s or '@' in s or '\\' in s:
             continue
+        if bn == '' and digits == '' and e == '':
+            continue          # a directory only: outside C19's shared grammar ("sequences that have a basename, extension or frame range")
         st = rng.choice([0, 1])
         add('seq', [s, st], '%r style=%d' % (s, st), 'seq-file', 'seq')
     for i in range(120 * n):
